@@ -13,6 +13,8 @@ impl<'a> VisitMutWith<BlockTransformVisitor<'a>> for Program {
               && (!item_is_directive(program_items(self)[i]) ==> !item_is_directive(program_items(s2)[i]))
         &&& v2.config == v.config
         &&& (v.transform_status.status == Status::Cancelled ==> v2.transform_status.status == Status::Cancelled)
+        // the reference to the status object is kept (what it points to may change)
+        &&& *final(v2.transform_status) == *final(v.transform_status)
     }
     #[verifier::external_body]
     fn visit_mut_children_with(&mut self, v: &mut BlockTransformVisitor<'a>) { unimplemented!() }
